@@ -1134,6 +1134,44 @@ pub fn check_session(cap: &Capture, scn: &DebugScenario, report: &mut Report) ->
         }
     }
 
+    // ----- program output of the whole session against the reference -----
+    // (transparent scripts are judged model-free by C09 below; here the reference's output
+    // stream, including what evaluated traps print, must equal stdout)
+    if !stop_compare
+        && out.violations.is_empty()
+        && scn.transport != Transport::Terminal
+        && dbg.io.adopted_at.is_none()
+        && !matches!(real.end, End::Spin | End::Fuel | End::KeysExhausted | End::Hang | End::Flood)
+        && expected_end.as_ref() == Some(&real.end)
+        && real.stdout != dbg.io.output
+    {
+        let has_eval_output = scn.script.iter().any(|i| matches!(&i.cmd, Cmd::Eval(e) if matches!(e.kind, EvalKind::Word(w) if w >> 12 == 0xF)));
+        let has_reset = scn.script.iter().any(|i| matches!(i.cmd, Cmd::Reset));
+        let prop = if scn.script.iter().all(|i| i.cmd.is_transparent()) {
+            "C09"
+        } else if has_eval_output {
+            "C15"
+        } else if has_reset {
+            "C12"
+        } else {
+            "C10"
+        };
+        let at = (0..real.stdout.len().max(dbg.io.output.len()))
+            .find(|i| real.stdout.get(*i) != dbg.io.output.get(*i))
+            .unwrap_or(0);
+        push(
+            &mut out,
+            prop,
+            format!("{}/stdout-vs-reference", prop),
+            format!(
+                "program output of the session differs from the reference at byte {}: real {:?}, reference {:?}",
+                at,
+                String::from_utf8_lossy(&real.stdout[at.saturating_sub(6).min(real.stdout.len())..(at + 12).min(real.stdout.len())]),
+                String::from_utf8_lossy(&dbg.io.output[at.saturating_sub(6).min(dbg.io.output.len())..(at + 12).min(dbg.io.output.len())])
+            ),
+        );
+    }
+
     // ----- C10: HALT is never executed while the debugger is attached -----
     if halt_executed_attached {
         push(
